@@ -7,7 +7,8 @@
 //!   reset                                  start a new history (all queries of the previous one must be finished)
 //!   get <key> <caller> <one|majority|all|n<k>> [t=<content>] [reg]
 //!                                          caller ids are consecutive from 0 within a history
-//!   found <qid> <peer> <content>           peer 0 = `PeerRecord.peer == None` (attributed to the driver itself)
+//!   found <qid> <peer> <content> [k<key>]  peer 0 = `PeerRecord.peer == None` (attributed to the driver itself);
+//!                                          k<key>: the record of the reply carries that key (default: the query's key)
 //!   finished|notfound|quorumfailed|timeout <qid>
 //!   hangup <caller>                        the caller drops its receiver
 //!   dump                                   canonical view of `pending_get_record`
@@ -19,6 +20,8 @@
 //! Output: get -> `new q<n>` | `join q<n>`; events -> `<ok|dropped|chan>` + ` ; c<caller> <outcome>`*;
 //!   outcome = ok <content> | split <content>=<peer.peer>,... | notenough <content> <expected> <got> | mismatch <content>
 //!           | notfound | timeout | closed; merge -> none | some <content> | illegal-choice
+//!   a record handed to a caller under a key other than the requested one is shown as `... key=k<n>` (ok, mismatch,
+//!   notenough) resp. `<content>@k<n>=...` (split)
 use ant_networking::verif::{event as hook, NetworkSwarmCmd};
 use ant_networking::{GetRecordCfg, GetRecordError, NetworkBuilder, NetworkError, SwarmDriver};
 use ant_protocol::storage::{
@@ -346,7 +349,7 @@ struct QInfo {
     id: QueryId,
     key: u64,
     first: CfgInfo,
-    replies: Vec<(u64, Vec<u8>)>,
+    replies: Vec<(u64, Vec<u8>, u64)>, // peer, value, key carried by the record
     callers: Vec<usize>,
     done: bool,
 }
@@ -420,20 +423,34 @@ impl H {
         rows.iter().map(|(t, ps)| format!("{t}={ps}")).collect::<Vec<_>>().join(",")
     }
 
-    fn outcome_str(&self, r: &GetResult) -> String {
+    fn key_sfx(pre: &str, key: &RecordKey, qkey: u64) -> String {
+        if *key == key_of(qkey) {
+            return String::new();
+        }
+        match (0..=15u64).find(|k| key_of(*k) == *key) {
+            Some(k) => format!("{pre}k{k}"),
+            None => format!("{pre}k?"),
+        }
+    }
+
+    fn outcome_str(&self, r: &GetResult, qkey: u64) -> String {
         match r {
-            Ok(rec) => format!("ok {}", self.uni.describe(&rec.value, false)),
+            Ok(rec) => format!("ok {}{}", self.uni.describe(&rec.value, false), Self::key_sfx(" key=", &rec.key, qkey)),
             Err(GetRecordError::NotEnoughCopies { record, expected, got }) => {
-                format!("notenough {} {expected} {got}", self.uni.describe(&record.value, false))
+                format!("notenough {} {expected} {got}{}", self.uni.describe(&record.value, false), Self::key_sfx(" key=", &record.key, qkey))
             }
             Err(GetRecordError::QueryTimeout) => "timeout".into(),
-            Err(GetRecordError::RecordDoesNotMatch(rec)) => format!("mismatch {}", self.uni.describe(&rec.value, false)),
+            Err(GetRecordError::RecordDoesNotMatch(rec)) => {
+                format!("mismatch {}{}", self.uni.describe(&rec.value, false), Self::key_sfx(" key=", &rec.key, qkey))
+            }
             Err(GetRecordError::RecordKindMismatch) => "kindmismatch".into(),
             Err(GetRecordError::RecordNotFound) => "notfound".into(),
             Err(GetRecordError::SplitRecord { result_map }) => {
                 let rows = result_map
                     .values()
-                    .map(|(rec, peers)| (self.uni.describe(&rec.value, false), peers.iter().map(|p| self.peer_int(p)).collect()))
+                    .map(|(rec, peers)| {
+                        (format!("{}{}", self.uni.describe(&rec.value, false), Self::key_sfx("@", &rec.key, qkey)), peers.iter().map(|p| self.peer_int(p)).collect())
+                    })
                     .collect();
                 format!("split {}", self.map_str(rows))
             }
@@ -500,7 +517,8 @@ impl H {
             match rx.try_recv() {
                 Ok(res) => {
                     self.callers[i].rx = None;
-                    let s = self.outcome_str(&res);
+                    let qkey = self.queries[self.callers[i].q].key;
+                    let s = self.outcome_str(&res, qkey);
                     self.callers[i].outcome = Some(s.clone());
                     got.push((i, s, Some(res)));
                 }
@@ -558,13 +576,32 @@ impl H {
                 &q.first
             };
             let mut versions: BTreeMap<&[u8], BTreeSet<u64>> = BTreeMap::new();
-            for (p, v) in &q.replies {
+            // peers that returned a version in a record carrying the requested key
+            let mut for_key: BTreeMap<&[u8], BTreeSet<u64>> = BTreeMap::new();
+            for (p, v, k) in &q.replies {
                 versions.entry(v.as_slice()).or_default().insert(*p);
+                if *k == q.key {
+                    for_key.entry(v.as_slice()).or_default().insert(*p);
+                }
             }
             match res {
                 Some(Ok(rec)) => {
                     out.count("outcome:ok");
-                    let n = versions.get(rec.value.as_slice()).map(|s| s.len()).unwrap_or(0);
+                    let n_any_key = versions.get(rec.value.as_slice()).map(|s| s.len()).unwrap_or(0);
+                    let n_req_key = for_key.get(rec.value.as_slice()).map(|s| s.len()).unwrap_or(0);
+                    // candidate finding K-d3: replies are counted whatever key their record carries, and the record handed
+                    // over is the completing reply's. Replay judges by the requested key; generation counts the cases.
+                    let foreign = rec.key != key_of(q.key) || (n_any_key >= qval(&cfg.quorum) && n_req_key < qval(&cfg.quorum));
+                    if foreign {
+                        if self.strict {
+                            if rec.key != key_of(q.key) {
+                                out.oracle_fail("ok-for-requested-key", &hist(), &format!("caller {c} asked for key {} and got ok with a record carrying another key (after `{op}`)", q.key));
+                            }
+                        } else {
+                            out.count("oracle:K-d3-restricted(replies counted / returned whatever key their record carries)");
+                        }
+                    }
+                    let n = if self.strict { n_req_key } else { n_any_key };
                     let is_tx = self.uni.tx_ids(&rec.value).is_some();
                     let merged_shape = versions.len() >= 2 && is_tx;
                     if n >= qval(&cfg.quorum) && !merged_shape {
@@ -595,7 +632,7 @@ impl H {
                         out.oracle_fail(
                             "ok-has-quorum",
                             &hist(),
-                            &format!("caller {c} got ok after `{op}` although only {n} distinct peer(s) returned that content; its quorum is {}", qval(&cfg.quorum)),
+                            &format!("caller {c} got ok after `{op}` although only {n} distinct peer(s) returned that content{}; its quorum is {}", if self.strict { " for the requested key" } else { "" }, qval(&cfg.quorum)),
                         );
                     }
                 }
@@ -613,7 +650,8 @@ impl H {
                 }
                 Some(Err(GetRecordError::RecordDoesNotMatch(rec))) => {
                     out.count("outcome:mismatch");
-                    if same_cfg && Self::target_matches(own, &rec.value) {
+                    // (a plain target is a whole record: the same value under another key is rightly a mismatch)
+                    if same_cfg && Self::target_matches(own, &rec.value) && (own.is_reg || rec.key == key_of(q.key)) {
                         out.oracle_fail("specific-error", &hist(), &format!("caller {c}: RecordDoesNotMatch although the value equals the expected one"));
                     }
                 }
@@ -736,8 +774,15 @@ impl H {
                 out.count(&format!("get:{word}:{q}"));
                 format!("{word} q{qi}")
             }
-            ["found", q, p, t] => {
+            ["found", q, p, t, rest @ ..] if rest.len() <= 1 => {
                 let (Some(q), Some(p)) = (dec(q), dec(p)) else { return "bad-op".into() };
+                let fk = match rest.first() {
+                    None => None,
+                    Some(k) => match k.strip_prefix('k').and_then(dec) {
+                        Some(k) if k <= 15 => Some(k),
+                        _ => return "bad-op".into(),
+                    },
+                };
                 let Some(v) = self.uni.bytes(t) else { return "bad-op".into() };
                 if q as usize >= self.queries.len() || p > 64 {
                     return "bad-op".into();
@@ -745,15 +790,19 @@ impl H {
                 self.history.push(line.to_string());
                 let (id, key) = (self.queries[q as usize].id, self.queries[q as usize].key);
                 let was_pending = pending_before.contains(&id);
+                let rkey = fk.unwrap_or(key);
                 if was_pending {
-                    let dup = self.queries[q as usize].replies.iter().any(|(pp, vv)| *pp == p && *vv == v);
+                    let dup = self.queries[q as usize].replies.iter().any(|(pp, vv, _)| *pp == p && *vv == v);
                     out.count(if dup { "found:duplicate-peer-same-content" } else { "found:pending" });
-                    self.queries[q as usize].replies.push((p, v.clone()));
+                    if rkey != key {
+                        out.count("found:record-carries-foreign-key");
+                    }
+                    self.queries[q as usize].replies.push((p, v.clone(), rkey));
                 } else {
                     out.count("found:late");
                 }
                 let peer = self.peer(p);
-                let pr = PeerRecord { peer, record: record(key_of(key), v) };
+                let pr = PeerRecord { peer, record: record(key_of(rkey), v) };
                 self.feed(id, QueryResult::GetRecord(Ok(GetRecordOk::FoundRecord(pr))))
             }
             [kind @ ("finished" | "notfound" | "quorumfailed" | "timeout"), q] => {
@@ -954,6 +1003,17 @@ fn corpus() -> Vec<Vec<&'static str>> {
         vec!["reset", "get 0 0 one t=t0.1", "found 0 1 t0.1"],
         vec!["reset", "get 0 0 one t=s0.1.0g", "found 0 1 s0.2.0g"],
         vec!["reset", "get 0 0 one t=s0.1.0g", "found 0 1 s0.1.0g"],
+        // replies whose record carries a key other than the requested one (never compared by the handlers)
+        vec!["reset", "get 0 0 one", "found 0 1 hc0 k1"],
+        vec!["reset", "get 0 0 n2", "found 0 1 hc0 k1", "found 0 2 hc0"],
+        vec!["reset", "get 0 0 n2", "found 0 1 hc0", "found 0 2 hc0 k3", "dump"],
+        vec!["reset", "get 0 0 majority", "get 0 1 majority", "found 0 1 hc0 k1", "found 0 2 hc0 k2", "found 0 3 hc0 k0"],
+        vec!["reset", "get 0 0 n2", "found 0 1 hc0 k1", "found 0 2 hc1", "finished 0"],
+        vec!["reset", "get 0 0 n3", "found 0 1 hc0 k1", "found 0 2 hc0", "finished 0"],
+        vec!["reset", "get 0 0 one t=hc0", "found 0 1 hc0 k1"],
+        vec!["reset", "get 0 0 one t=r0g.1 reg", "found 0 1 r0g.1 k1"],
+        vec!["reset", "get 0 0 n2", "found 0 1 t1", "found 0 2 t0", "found 0 3 t0 k2"],
+        vec!["reset", "get 0 0 n2", "found 0 1 hc1 k1", "found 0 2 hc0", "found 0 3 hc0 k2"],
         // Quorum::N up to the replication factor and beyond: exactly that many distinct peers are needed
         vec!["reset", "get 0 0 n6", "found 0 1 hc0", "found 0 2 hc0", "found 0 3 hc0", "found 0 3 hc0", "found 0 4 hc0", "found 0 5 hc0", "dump", "found 0 6 hc0"],
         vec!["reset", "get 0 0 n6", "found 0 1 hc0", "found 0 2 hc0", "found 0 3 hc0", "found 0 4 hc0", "found 0 5 hc0", "finished 0"],
@@ -1119,6 +1179,7 @@ fn gen_history(h: &mut H, rng: &mut Rng, out: &mut Out) {
     let same_cfg = rng.chance(1, 2); // half of the histories: every caller of a key uses the first caller's cfg
     let mut cfg_of_key: HashMap<u64, String> = HashMap::new();
     let npeers = rng.range(2, 9);
+    let foreign_keys = rng.chance(1, 6); // some replies carry a record under another (or explicitly the same) key
     let steps = rng.range(4, 16);
     let gen_get = |h: &mut H, rng: &mut Rng, out: &mut Out, cfg_of_key: &mut HashMap<u64, String>| {
         let k = rng.below(nkeys);
@@ -1163,7 +1224,8 @@ fn gen_history(h: &mut H, rng: &mut Rng, out: &mut Out) {
                 let q = pick_q(rng);
                 let p = rng.below(npeers);
                 let c = if rng.chance(7, 10) { pool[0].clone() } else { rng.pick(&pool).clone() };
-                run_line(h, out, &format!("found {q} {p} {c}"))
+                let k = if foreign_keys && rng.chance(1, 3) { format!(" k{}", rng.below(3)) } else { String::new() };
+                run_line(h, out, &format!("found {q} {p} {c}{k}"))
             }
             82..=90 => {
                 let q = pick_q(rng);
